@@ -4,7 +4,8 @@ from ..gen_text import gen_tables
 
 RULE = ('documents = fixtures + generated lexeme soups with random trivia (comments before tokens on the same line, multi-line '
         'comments, CRLF, non-ASCII), some with lexical errors; each is sent to `ironplcc lsp --stdio` after a random edit '
-        'history (other documents opened, the document changed several times) and textDocument/semanticTokens/full is '
+        'history (other documents opened, the document changed several times, earlier versions highlighted before the change - '
+        'valid then lexically broken and the reverse) and textDocument/semanticTokens/full is '
         'requested; the data is compared with the Lean model (M-Lex + Gen/Legend + relative encoding) and decoded with the '
         'LSP rule against the lexemes reported by tokenize_program; non-trivial = at least 2 highlighted lexemes; '
         'distinct = distinct (feature set, history shape)')
